@@ -58,7 +58,7 @@ def decode_case(raw):
             steps.append(gen.decode_sync(t))
         else:
             steps.append([{"op": "scrub", "plan": "full"}, {"op": "lose_split", "level": t[1], "split": t[2]}, {"op": "lose_level", "level": t[1]},
-                          {"op": "fix", "mode": "all"}, {"op": "check"}][t[1] % 5])
+                          {"op": "fix", "mode": "all"}, {"op": "check"}, {"op": "raise_limit", "by": 1 + t[2] % 6}][t[1] % 6])
     return {"cfg": cfg, "splits": splits, "limit": limit, "init": [gen.decode_fs((0,) + tuple(t[1:]), bs, nd, odd=False, links=False) for t in init],
             "prog": steps, "loss": lossi}
 
@@ -161,6 +161,26 @@ def run_case(case, ctx):
         steps = list(case["prog"]) + [{"op": "sync"}]
         for i, s in enumerate(steps):
             op = s["op"]
+            if op == "raise_limit":
+                # the disks holding the splits got more room (what the per-split limit of the test option stands for):
+                # already filled splits keep their recorded size, only the last used one may grow
+                # (the option derives each split's limit pseudo-randomly from the base value: pick the next base for which
+                # no split of any level gets less room than it had)
+                old = wb.arr.cfg["parity_limit"]
+
+                def eff(base, sp, lev):
+                    return base + (123562341 + sp * 634542351 + lev * 983491341) % base
+                pairs = [(sp, lev) for lev in range(cfga["levels"]) for sp in range(wb.arr.nsplits(lev))]
+                new = old + s["by"] * wb.arr.bs
+                for _ in range(64):
+                    if all(eff(new, sp, lev) >= eff(old, sp, lev) for sp, lev in pairs):
+                        break
+                    new += wb.arr.bs
+                else:
+                    continue
+                wb.arr.cfg["parity_limit"] = new
+                classes.add("per-split limit raised")
+                continue
             if op in ("lose_split", "lose_level"):
                 # loss + repair as one step on a clean (fully synced) state, so that both twins stay comparable
                 ra, rb = wa.cmd("sync", ["-E", "-Z"]), wb.cmd("sync", ["-E", "-Z"])
